@@ -17,12 +17,14 @@ def gen(rng, tier, quarantine=()):
     fns = [(q, f) for q, f in fns if not _quarantined(q, quarantine)]
     qual, fnir = rng.choice(fns)
     forms = ir.bound_names(fnir)
-    names = [n for n, f in forms.items() if f != {"decl"} and not _name_quarantined(qual, n, forms[n], quarantine)]
+    # closure variables are reported at entry (documented, outside the statement)
+    names = [n for n, f in forms.items() if f != {"decl"} and n not in fnir.get("free", ())
+             and not _name_quarantined(qual, n, forms[n], quarantine)]
     ops = []
     nprobes = rng.choice([1, 1, 2])
     for i in range(nprobes):
         focus = rng.choice(names)
-        ctx = [n for n in names if n != focus and rng.random() < 0.35][:2]
+        ctx = [n for n in names if n != focus and n not in fnir.get("mutable", ()) and rng.random() < 0.35][:2]
         if "param" in forms[focus]:
             ctx = [c for c in ctx if "param" not in forms[c]]
         sel = simple_sel(qual, focus=focus, caps=ctx)
